@@ -364,6 +364,27 @@ def run_unit(unit):
     return res.as_dict()
 
 
+# ----------------------------------------------------------------------------- stores to pre-existing state
+def adjudicate_stores(prop, failed, undecided, obligations, extra, no_witness_text):
+    """A store to an object that existed before the call and is not an argument (`<unit>/frame/*`, `pure:*`) shows that
+    the function keeps state; whether that state can ever change a result is what the property is about.  When stores
+    are the ONLY failures of a run and the check's bounded witness search (extra checks `<prop>/bounded/*`) found no
+    history that changes a result, the proof does not go through but nothing is violated: undecided."""
+    witness = [e for e in extra if e["name"].startswith(prop + "/bounded/") and e["status"] == "failed"]
+    stores = [ob for ob in failed if "/frame/" in ob["name"] or "/pure:" in ob["name"]]
+    others = [ob for ob in failed if ob not in stores and not ob["name"].startswith(prop + "/bounded/")]
+    if witness or others or not stores:
+        return
+    for ob in stores:
+        failed.remove(ob)
+        ob["status"] = "undecided"
+        ob["detail"] = "purity not established (%s), and %s" % (ob.get("detail") or "store to pre-existing state", no_witness_text)
+        ob["model"] = None
+        undecided.append(ob)
+        if ob["name"] in obligations:
+            obligations[ob["name"]]["status"] = "undecided"
+
+
 # ----------------------------------------------------------------------------- native replay
 def _native_call(fn, args, kwargs):
     try:
